@@ -30,6 +30,7 @@ CONSTANTS
  E2E = FALSE
  Aead = FALSE
  CheckIdent = TRUE
+ RelayOnce = TRUE
  AutoTimers = TRUE
 INVARIANT TypeOK
 INVARIANT ExitIntegrity
